@@ -12,6 +12,7 @@ import (
 	"sort"
 	"strings"
 
+	"github.com/onflow/cadence/ast"
 	"github.com/onflow/cadence/common"
 	"github.com/onflow/cadence/parser"
 	"github.com/onflow/cadence/sema"
@@ -350,4 +351,20 @@ func rawMain(args []string) {
 	}
 	accept, res, other := checkSource(src)
 	fmt.Println("accept:", accept, "linearity:", res, "other:", other)
+	if os.Getenv("LANG_VERBOSE") == "1" {
+		program, _ := parser.ParseProgram(nil, []byte(src), parser.Config{})
+		checker, _ := sema.NewChecker(program, common.StringLocation("t"), nil, &sema.Config{
+			AccessCheckMode:            sema.AccessCheckModeStrict,
+			BaseValueActivationHandler: func(common.Location) *sema.VariableActivation { return linBaseActivation },
+		})
+		if err := checker.Check(); err != nil {
+			for _, e := range err.(*sema.CheckerError).Errors {
+				if pe, ok := e.(interface{ StartPosition() ast.Position }); ok {
+					fmt.Printf("  %T at line %d col %d: %s\n", e, pe.StartPosition().Line, pe.StartPosition().Column, e.Error())
+				} else {
+					fmt.Printf("  %T: %s\n", e, e.Error())
+				}
+			}
+		}
+	}
 }
